@@ -224,6 +224,7 @@ func runBSCase(cs *bsCase, checkProp bool) (string, string) {
 	r, _ := bitstream.NewDefaultInputBitStream(src, uint(cs.rbuf))
 	pos := 0
 	rclosed := false
+	hadPanic := false // after a read that panicked the position of the stream is unspecified: the direct rules stop there (the model comparison goes on)
 	for _, o := range cs.ops {
 		tok := ""
 		var p bool
@@ -232,7 +233,7 @@ func runBSCase(cs *bsCase, checkProp bool) (string, string) {
 			var v int
 			p = guard(func() { v = r.ReadBit() })
 			tok = "v" + strconv.Itoa(v)
-			if !p && checkProp {
+			if !p && checkProp && !hadPanic {
 				if pos+1 > 8*len(avail) {
 					fail("ReadBit past the end returned a value")
 				} else if pos+1 <= len(ref.bits) && byte(v) != ref.bits[pos] {
@@ -244,7 +245,7 @@ func runBSCase(cs *bsCase, checkProp bool) (string, string) {
 			var v uint64
 			p = guard(func() { v = r.ReadBits(o.count) })
 			tok = "v" + strconv.FormatUint(v, 10)
-			if !p && checkProp {
+			if !p && checkProp && !hadPanic {
 				if pos+int(o.count) > 8*len(avail) {
 					fail("ReadBits(%d) past the end returned a value", o.count)
 				} else {
@@ -266,7 +267,7 @@ func runBSCase(cs *bsCase, checkProp bool) (string, string) {
 			buf := make([]byte, (o.count+7)/8)
 			p = guard(func() { r.ReadArray(buf, o.count) })
 			tok = "a" + hex.EncodeToString(buf)
-			if !p && checkProp {
+			if !p && checkProp && !hadPanic {
 				if pos+int(o.count) > 8*len(avail) {
 					fail("ReadArray(%d) past the end returned", o.count)
 				} else {
@@ -292,7 +293,7 @@ func runBSCase(cs *bsCase, checkProp bool) (string, string) {
 		}
 		if p {
 			tok = "p"
-			if checkProp && !rclosed {
+			if checkProp && !rclosed && !hadPanic {
 				need := 0
 				switch o.kind {
 				case "rb":
@@ -309,9 +310,12 @@ func runBSCase(cs *bsCase, checkProp bool) (string, string) {
 		} else if checkProp && rclosed && o.kind != "rc" {
 			fail("closed input stream accepted %s", o.kind)
 		}
+		if p && !rclosed {
+			hadPanic = true
+		}
 		rd := int64(r.Read())
 		fmt.Fprintf(&out, "%s:%d ", tok, rd)
-		if checkProp && !p && !rclosed && rd != int64(pos) {
+		if checkProp && !p && !rclosed && !hadPanic && rd != int64(pos) {
 			fail("Read() = %d after %d bits", rd, pos)
 		}
 	}
@@ -321,6 +325,43 @@ func runBSCase(cs *bsCase, checkProp bool) (string, string) {
 func genWriteOps(r *Rng, wbuf int, maxBytes int) []bsOp {
 	ops := []bsOp{}
 	total := 0
+	if r.Intn(5) == 0 {
+		// the 64-bit word that reaches the flush threshold (buffer offset len-16) is completed by a single-bit write, or by a
+		// short WriteBits: every operation has its own copy of the push/flush sequence
+		for round := r.Range(1, 2); round > 0; round-- {
+			c := 1
+			if r.Intn(3) == 0 {
+				c = r.Range(2, 64)
+			}
+			fill := 8*(wbuf-8) - c
+			for fill > 0 {
+				k := r.Range(1, 64)
+				if k > fill {
+					k = fill
+				}
+				if r.Intn(4) == 0 && fill > 200 {
+					k = r.Range(65, 200)
+					data := make([]byte, (k+7)/8)
+					for j := range data {
+						data[j] = byte(r.U64())
+					}
+					ops = append(ops, bsOp{kind: "wa", count: uint(k), data: data})
+				} else if k == 1 && r.Bool() {
+					ops = append(ops, bsOp{kind: "wb", value: r.U64() & 1})
+				} else {
+					ops = append(ops, bsOp{kind: "ws", value: r.U64() & ((uint64(1) << uint(k&63)) - 1), count: uint(k)})
+				}
+				fill -= k
+				total += k
+			}
+			if c == 1 {
+				ops = append(ops, bsOp{kind: "wb", value: 1})
+			} else {
+				ops = append(ops, bsOp{kind: "ws", value: r.U64() | 1, count: uint(c)})
+			}
+			total += c
+		}
+	}
 	n := r.Range(1, 60)
 	for i := 0; i < n && total < maxBytes*8; i++ {
 		switch k := r.Intn(10); {
@@ -457,10 +498,40 @@ func runBS(c *Ctx, mode string) {
 		if tailKind == 2 && len(rops) > 1 { // close the reader in the middle of the data (bits still cached in the accumulator)
 			rops = rops[:r.Intn(len(rops))]
 		}
+		straddle := -1
+		if tailKind == 0 && len(rops) > 3 && r.Bool() && !(r.Intn(3) == 0) {
+			// stop a few operations before the end and get close to it: ONE read then starts inside the data and runs over the
+			// final (partial) word (what a stream does after a failed read is unspecified: nothing is issued after it)
+			drop := r.Range(1, 3)
+			left := 0
+			for _, o := range rops[len(rops)-drop:] {
+				switch o.kind {
+				case "rb":
+					left++
+				default:
+					left += int(o.count)
+				}
+			}
+			rops = rops[:len(rops)-drop]
+			k := r.Range(0, 40)
+			if left > k {
+				rops = append(rops, bsOp{kind: "ra", count: uint(left - k)})
+				left = k
+			}
+			straddle = left
+		}
 		ops = append(ops, rops...)
 		switch tailKind {
 		case 0: // read past the end
-			ops = append(ops, bsOp{kind: "rs", count: uint(r.Range(1, 64))}, bsOp{kind: "rs", count: 64}, bsOp{kind: "ra", count: uint(r.Range(1, 200))})
+			if straddle >= 0 {
+				if straddle+8 <= 63 && r.Bool() {
+					ops = append(ops, bsOp{kind: "rs", count: uint(r.Range(straddle+8, 64))})
+				} else {
+					ops = append(ops, bsOp{kind: "ra", count: uint(straddle + r.Range(8, 300))})
+				}
+			} else {
+				ops = append(ops, bsOp{kind: "rs", count: uint(r.Range(1, 64))}, bsOp{kind: "rs", count: 64}, bsOp{kind: "ra", count: uint(r.Range(1, 200))})
+			}
 		case 1:
 			ops = append(ops, bsOp{kind: "rc"}, bsOp{kind: "rs", count: 8}, bsOp{kind: "ra", count: 16}, bsOp{kind: "rc"})
 		case 2:
